@@ -5,9 +5,9 @@
 set -u
 VERIF="$(cd "$(dirname "${BASH_SOURCE[0]}")/.." && pwd)"
 P="$1"; V="$2"; shift 2
-SRC="/tmp/seed-$P/SEED/$V"
+SRC="${SEEDROOT:-/tmp/seed}-$P/SEED/$V"
 S=/tmp/rce-scratch
-OUT="$VERIF/seeded/$P-$V"
+OUT="$VERIF/seeded/$P-${OUTV:-$V}"
 [ -f "$SRC/patch.diff" ] || { echo "no $SRC/patch.diff"; exit 2; }
 mkdir -p "$OUT"
 cp "$SRC"/patch.diff "$OUT/"; cp "$SRC"/demo.* "$OUT/" 2>/dev/null; cp "$SRC/README.md" "$OUT/README.md" 2>/dev/null
@@ -39,8 +39,8 @@ clean
 # 3. our checks against the change
 checks="$P $*"
 res="$("$VERIF/tools/mutant.sh" "$SRC/patch.diff" $checks 2>&1)"
-echo "== $P-$V"; echo "tests with change: $tests_with"; echo "demo ($demo_kind): with=[$demo_with] without=[$demo_without]"; echo "$res"
-python3 - "$OUT/meta.json" "$P" "$V" "$tests_with" "$demo_kind" "$demo_with" "$demo_without" "$res" <<'PY'
+echo "== $P-${OUTV:-$V}"; echo "tests with change: $tests_with"; echo "demo ($demo_kind): with=[$demo_with] without=[$demo_without]"; echo "$res"
+python3 - "$OUT/meta.json" "$P" "${OUTV:-$V}" "$tests_with" "$demo_kind" "$demo_with" "$demo_without" "$res" <<'PY'
 import json,sys,re
 out,P,V,tw,dk,dw,dwo,res=sys.argv[1:9]
 caught={}
